@@ -22,8 +22,8 @@ ASSUMPTIONS = [
     "after a rejected command the case ends: Executor.run_one_tick walks pools in order, so a rejection in pool k leaves pools < k advanced, a state the property does not speak about; 'rejected as a whole' is judged on the rejecting pool",
 ]
 NSHARDS = {"quick": 16, "thorough": 16}
-N_MIX = {"quick": 220, "thorough": 6000}
-N_SIM = {"quick": 14, "thorough": 300}
+N_MIX = {"quick": 220, "thorough": 12000}
+N_SIM = {"quick": 14, "thorough": 900}
 REQUIRE = {"container_succeeded": 500, "container_failed": 200, "suspension_finished": 100,
            "rejected:oversell-cpu": 5, "rejected:oversell-ram": 5, "reject_left_pool_unchanged": 10,
            "sim_ticks_checked": 5000, "sim_runs": 20}
